@@ -292,18 +292,27 @@ def rel_module_parts(c):
     ml2 = c.get("modules", ref(pi))
     items2 = z3.Select(c.arr("ListWrapper._data#items"), ref(ml2))
     n2 = z3.Select(c.arr("ListWrapper._data#len"), ref(ml2))
+    wl = fresh("wl", Int)
+    it_w = lambda k: z3.Select(z3.Select(c.arr("ListWrapper._data#items"), wl), k)
+    own_w = c.get("_node", wl)
     return {
-        "rel_module_wiring": z3.ForAll([ir], z3.Implies(c.isinst(ir, "IR"), z3.And(
-            is_VRef(ml), kind_is(c, ref(ml), "IR._ModuleList"), c.get("_node", ref(ml)) == VRef(ir), n >= 0))),
-        "rel_module_items": z3.ForAll([ir, i], z3.Implies(
-            z3.And(c.isinst(ir, "IR"), 0 <= i, i < n),
-            z3.And(is_VRef(z3.Select(items, i)), c.isinst(ref(z3.Select(items, i)), "Module"),
-                   c.get("_ir", ref(z3.Select(items, i))) == VRef(ir)))),
-        "rel_module_nodup": z3.ForAll([ir, i, j], z3.Implies(z3.And(c.isinst(ir, "IR"), 0 <= i, i < j, j < n),
-                                                             z3.Select(items, i) != z3.Select(items, j))),
+        "rel_module_wiring": z3.And(
+            z3.ForAll([ir], z3.Implies(c.isinst(ir, "IR"), z3.And(
+                is_VRef(ml), kind_is(c, ref(ml), "IR._ModuleList"), c.get("_node", ref(ml)) == VRef(ir), n >= 0))),
+            # every module-list object belongs to exactly one IR
+            z3.ForAll([wl], z3.Implies(kind_is(c, wl, "IR._ModuleList"), z3.And(
+                is_VRef(own_w), c.isinst(ref(own_w), "IR"), c.get("modules", ref(own_w)) == VRef(wl))))),
+        # (quantified over the list object itself, so that terms about a given list trigger the facts directly)
+        "rel_module_items": z3.ForAll([wl, i], z3.Implies(
+            z3.And(kind_is(c, wl, "IR._ModuleList"), 0 <= i, i < z3.Select(c.arr("ListWrapper._data#len"), wl)),
+            z3.And(is_VRef(it_w(i)), c.isinst(ref(it_w(i)), "Module"), c.get("_ir", ref(it_w(i))) == c.get("_node", wl)))),
+        "rel_module_nodup": z3.ForAll([wl, i, j], z3.Implies(
+            z3.And(kind_is(c, wl, "IR._ModuleList"), 0 <= i, i < j, j < z3.Select(c.arr("ListWrapper._data#len"), wl)),
+            it_w(i) != it_w(j))),
         "rel_module_pos": z3.ForAll([m], z3.Implies(c.isinst(m, "Module"), z3.Or(is_VNone(pi), z3.And(
             is_VRef(pi), c.isinst(ref(pi), "IR"),
-            z3.Or(z3.And(0 <= pos, pos < n2, z3.Select(items2, pos) == VRef(m)), m == pending_module(c)))))),
+            z3.Or(z3.And(0 <= pos, pos < n2, z3.Select(items2, pos) == VRef(m)),
+                  (m == pending_module(c)) if pending_module(c) is not None else z3.BoolVal(False)))))),
     }
 
 
@@ -311,4 +320,4 @@ def pending_module(c):
     """ghost: a module whose _ir already points to its new IR but which is not yet in that IR's list
     (between IR._ModuleList._add and the list insertion); -1 outside that window"""
     g = getattr(c.eng, "ghost", None) or {}
-    return g.get("M_pending", z3.IntVal(-1))
+    return g.get("M_pending")
